@@ -16,7 +16,7 @@ RULE = ("Real processes. Every cell of tool {assembler.py, file_util.py with a c
         "modification is permitted iff append and kind(existing) == kind being written, kind() decided by the "
         "independent readers (valid Disk BASIC image -> disk; tape grammar with >= 1 file -> cassette; zero-length -> "
         "either when appending; anything else -> other; --to_bin onto non-image bytes -> either). Not permitted: bytes and mtime "
-        "unchanged and stdout says why. Permitted / absent: if the file changed or appeared it must be a complete image "
+        "unchanged and the tool prints a message (any wording). Permitted / absent: if the file changed or appeared it must be a complete image "
         "of the requested kind holding the previous files plus the new one (bin: exactly the program bytes). "
         "Non-trivial = every case with an existing target or a sequence; distinct by case hash.")
 ASSUMPTIONS = [
@@ -211,8 +211,8 @@ def execute(case):
                     return viol("{}: the target was modified (now {} {} bytes); stdout={!r}".format(
                         where, akind, len(after or b""), res.stdout[-200:]), fid="C10:modified:{}:{}:{}".format(
                         step["switch"], "append" if step["append"] else "noappend", kind), labels=sorted(set(labels)))
-                out = res.stdout.strip()
-                if not out or not any(w in out for w in ("exist", "not of type", "target.out", "Unable")):
+                out = (res.stdout + res.stderr).strip()
+                if not out:     # the wording is the tool's business; saying nothing at all is not
                     return viol("{}: target left alone but the user is not told why; stdout={!r}".format(where, out[-200:]),
                                 fid="C10:no-explanation", labels=sorted(set(labels)))
                 continue
